@@ -122,9 +122,15 @@ func (b *Base) docx() ([]byte, error) {
 var blkKinds = []string{"p", "p", "p", "psect", "psect", "tbl", "bm", "sdt"}
 
 func genBase(t *rapid.T) *Base {
+	// 1-7 children as a rule; one start document in twelve is long (around 10, 16, 32, 64 children)
+	lo, hi := 1, 7
+	if rapid.IntRange(0, 11).Draw(t, "longbase") == 0 {
+		lo = rapid.SampledFrom([]int{8, 9, 10, 15, 16, 17, 30, 31, 32, 33, 62, 63, 64, 65}).Draw(t, "nblocks")
+		hi = lo + 2
+	}
 	b := &Base{BodySect: rapid.SampledFrom([]int{1, 1, 1, 2, 3, 0}).Draw(t, "bodysect")}
 	b.Blocks = rapid.SliceOfN(rapid.Custom(func(t *rapid.T) Blk {
 		return Blk{K: rapid.SampledFrom(blkKinds).Draw(t, "bk"), V: rapid.IntRange(0, 3).Draw(t, "bv")}
-	}), 1, 7).Draw(t, "blocks")
+	}), lo, hi).Draw(t, "blocks")
 	return b
 }
